@@ -1,17 +1,17 @@
 #!/bin/bash
 # tools/confirm_seed.sh <PROP> <k> : confirm a sub-agent's seeded change in its scratch worktree /tmp/wt-<PROP>:
 #   existing suite passes with the change; demo fails with it and passes without it.  Writes /tmp/seed-<PROP>/<k>/confirm.txt
-P=$1; K=$2; W=/tmp/wt-$P; S=/tmp/seed-$P/$K; OUT=$S/confirm.txt
+P=$1; K=$2; FEAT=${3:+--features $3}; W=/tmp/wt-$P; S=/tmp/seed-$P/$K; OUT=$S/confirm.txt
 export CARGO_TARGET_DIR=$W/target CARGO_NET_OFFLINE=true
 cd $W || exit 2
 git checkout -q -- . ; git clean -fdq -e target
 git apply $S/patch.diff || { echo "patch does not apply" > $OUT; exit 2; }
-if grep -qE "fn main" $S/demo.rs; then KIND=example; mkdir -p examples; cp $S/demo.rs examples/seed_demo.rs; else KIND=test; cp $S/demo.rs tests/seed_demo.rs; fi
 suite=$(cargo test --workspace --no-fail-fast --offline 2>&1 | grep -E "^test result" | awk '{p+=$4; f+=$6} END {print p" passed "f" failed"}')
-cargo test --offline --$KIND seed_demo > /tmp/demo_with_$P$K.txt 2>&1; with=$?
-grep -qE "fn main" examples/seed_demo.rs && { cargo run --offline --example seed_demo >> /tmp/demo_with_$P$K.txt 2>&1; withrun=$?; } || withrun=na
+if grep -qE "fn main" $S/demo.rs; then KIND=example; mkdir -p examples; cp $S/demo.rs examples/seed_demo.rs; else KIND=test; cp $S/demo.rs tests/seed_demo.rs; fi
+cargo test --offline $FEAT --$KIND seed_demo > /tmp/demo_with_$P$K.txt 2>&1; with=$?
+grep -qE "fn main" examples/seed_demo.rs && { cargo run --offline $FEAT --example seed_demo >> /tmp/demo_with_$P$K.txt 2>&1; withrun=$?; } || withrun=na
 git checkout -q -- . ; if [ $KIND = test ]; then cp $S/demo.rs tests/seed_demo.rs; fi
-cargo test --offline --$KIND seed_demo > /tmp/demo_without_$P$K.txt 2>&1; without=$?
-grep -qE "fn main" examples/seed_demo.rs && { cargo run --offline --example seed_demo >> /tmp/demo_without_$P$K.txt 2>&1; withoutrun=$?; } || withoutrun=na
+cargo test --offline $FEAT --$KIND seed_demo > /tmp/demo_without_$P$K.txt 2>&1; without=$?
+grep -qE "fn main" examples/seed_demo.rs && { cargo run --offline $FEAT --example seed_demo >> /tmp/demo_without_$P$K.txt 2>&1; withoutrun=$?; } || withoutrun=na
 rm -f examples/seed_demo.rs tests/seed_demo.rs; git checkout -q -- . ; git clean -fdq -e target
 echo "suite_with_change: $suite | demo_with_change: test_exit=$with run_exit=$withrun | demo_without_change: test_exit=$without run_exit=$withoutrun" | tee $OUT
